@@ -539,3 +539,59 @@ def draw_prior(st: S.Stream, ops_list: Sequence[int], pc: int, force: bool = Fal
             kind = "valid+rejected-lookahead"
     return ({"kind": kind, "via": via, "addr": addr, "code": code.hex()},
             [f"prior:{kind}/{via}", "prior-at:" + where])
+
+
+# ---------------------------------------------------------------------------------------------------------------
+# Round 5: the power state at instruction entry, and what the host does inside the memory callbacks
+# ---------------------------------------------------------------------------------------------------------------
+
+POWER_OPCODES = {"HALT": 0xDE, "OFF": 0xDF}
+
+
+def draw_power(st: S.Stream, pc: int) -> Tuple[str, Optional[Dict[str, Any]], List[str]]:
+    """The core is stopped at instruction entry (Emulator.state.halted is part of the machine state: it is saved in
+    snapshots and nothing inside pysc62015 but power_on_reset clears it).  How it got there is generated:
+      3/4  history -- a HALT or an OFF instruction (1/2 each, 1/4 under a PRE byte) was EXECUTED earlier on the same
+           Emulator object, at the same address / next to the instruction under test / elsewhere, and nothing woke the
+           core; registers and memory are put back to the case afterwards (c03_core.run_prior), the power state is the
+           one the instruction left;
+      1/4  the state is written from outside (a snapshot taken while halted is restored into a fresh emulator).
+    Returns (power, prior or None, labels); the last label of a history case is its 'prior-at:' label."""
+    if st.chance(1, 4):
+        return "halted", None, ["power:halted/restored-from-outside"]
+    name = "HALT" if st.chance(1, 2) else "OFF"
+    pre = st.choice(G.PRE_OPCODES) if st.chance(1, 4) else None
+    code = (bytes([pre]) if pre is not None else b"") + bytes([POWER_OPCODES[name]])
+    w = st.below(3)
+    if w == 0:
+        addr, where = pc, "same-address"
+    elif w == 1:
+        addr = (pc + 24 + st.below(8)) if st.chance(1, 2) else (pc - 9 - st.below(8))
+        where = "adjacent"
+    else:
+        addr, where = 0x00400 + st.below(0xFF000), "elsewhere"
+    addr = min(max(addr, 0x100), 0xFFFC0)
+    prior = {"kind": "power:" + name + ("+pre" if pre is not None else ""), "via": "execute", "addr": addr,
+             "code": code.hex(), "sets_power": True}
+    return "halted", prior, [f"power:halted/{name}-executed-earlier", "prior-at:" + where]
+
+
+def draw_coexec(st: S.Stream, ops_list: Sequence[int], pc: int) -> Tuple[Optional[Dict[str, Any]], List[str]]:
+    """A second machine that is stepped from inside a memory callback of the instruction under test (synchronous
+    co-simulation of a peripheral core / mailbox device): its own complete generated case -- any valid encoding (every
+    prefix), own registers, pointers, I in 1..24, own memory hash -- and the index k of the data access (read or write,
+    in the order the evaluator makes them) inside which it executes ONE instruction: k = 0 (1/2), 1..3 (3/8),
+    4..11 (1/8: later bytes of multi-byte and counted forms)."""
+    for _ in range(6):
+        code = draw_encoding(st, st.choice(G.PRES), st.choice(list(ops_list)))
+        if code is None:
+            continue
+        mc = make_case(st, code, 24)
+        if mc is None:
+            continue
+        case2, _labels2, mn2, _ops2 = mc
+        r = st.below(8)
+        at = 0 if r < 4 else (1 + st.below(3)) if r < 7 else (4 + st.below(8))
+        return ({"at": at, "case": {k: case2[k] for k in ("regs", "power", "seed", "mem")}},
+                [f"coexec-at:{'0' if at == 0 else '1-3' if at < 4 else '4-11'}", "coexec-nested-mn:" + mn2])
+    return None, ["coexec:no-nested-case"]
